@@ -38,7 +38,18 @@ def node_text(name, off):
     return '%s[t%+d]' % (name, off)
 
 
+def constants():
+    """Equations without any term on the right-hand side, alone and next to equations that read the constant before/after it is set."""
+    T, L, E, P = programs.Term, programs.Lit, programs.Eq, programs.Program
+    for ctx, leaves in (('PH0', [L('20')]), ('PH0 * PH1', [L('0.025'), L('2')]), ('-PH0', [L('1')]), ('max(PH0, PH1)', [L('1'), L('2')])):
+        yield P([E(T('G'), ctx, leaves)], 'const')
+        yield P([E(T('G'), ctx, leaves), E(T('Y'), 'PH0 + PH1', [T('G'), T('X')])], 'const')
+        yield P([E(T('Y'), 'PH0 + PH1', [T('G'), T('X')]), E(T('G'), ctx, leaves)], 'const')
+        yield P([E(T('G', 'v', 1), ctx, leaves), E(T('r'), ctx, leaves)], 'const')
+
+
 def strata(tier):
+    yield 'const', constants
     yield 'S1', programs.s1
     yield 'S2', programs.s2
     yield 'S3', (lambda: programs.s3(4)) if tier == 'quick' else (lambda: programs.s3(5))
@@ -141,7 +152,7 @@ def run_special(case):
 def blocks(tier, seed):
     out = [{'special': True}]
     for name, _ in strata(tier):
-        nb = {'S1': 8, 'S2': 16, 'S3': 16 if tier == 'quick' else 96, 'S4': 24 if tier == 'quick' else 64}[name]
+        nb = {'const': 1, 'S1': 8, 'S2': 16, 'S3': 16 if tier == 'quick' else 96, 'S4': 24 if tier == 'quick' else 64}[name]
         for b in range(nb):
             out.append({'stratum': name, 'b': b, 'nb': nb})
     return out
